@@ -4,6 +4,7 @@ import TxVerif.Props.C12Writer
 import TxVerif.Props.PQQueueRefine
 import TxVerif.Tie.Fixes
 import TxVerif.Props.PQQueueSpace
+import TxVerif.Proofs.PQQueueConcFail
 open TxVerif
 #print axioms ack_space_bound
 #print axioms ack_keeps_unacked
@@ -57,3 +58,6 @@ open TxVerif
 #print axioms space_small_tight
 #print axioms space_last_acked_needed
 #print axioms space_divisor
+#print axioms QInv_sameBuf
+#print axioms sim_flush_failed
+#print axioms sim_next_failed
